@@ -345,6 +345,7 @@ def cofactor(ci):
 
 
 def jobs(tier, seed):
+    _pre = [Job("inst-validate", "harness.egcommon:validate_instrumented_keys")]
     js = []
     nat = loader.load_native()
     for c in nat.curves.curves:
@@ -363,7 +364,7 @@ def jobs(tier, seed):
         js.append(Job("toyc/%d" % i, "harness.c08:toy_compressed", tier=tier, idx=i))
     for ci in range(len(_cofactor_curves())):
         js.append(Job("cof/%d" % ci, "harness.c08:cofactor", ci=ci))
-    return js
+    return _pre + js
 
 
 # -- replay -------------------------------------------------------------------------------
